@@ -37,6 +37,11 @@ type blkTarget struct {
 	prodNames []string
 	push      []func(v int) error
 	pop       []func() (int, bool)
+	// non-destructive iterators over the same container: they are not judged
+	// here (C20 does that) but they park on the same condition variables as
+	// the blocked producers and consumers, and so take part in every wake-up
+	bystanders []func() func(ctx context.Context) (int, error)
+	byNames    []string
 }
 
 func c07Judge(w *W, tg *blkTarget, ops []*blkOp, phase string) {
@@ -115,6 +120,25 @@ func c07Run(w *W, tg *blkTarget, prefill int) {
 			op.err = fn(op.ctx, v)
 			op.state = 2
 		})
+	}
+	nBy := 0
+	if len(tg.bystanders) > 0 && simrt.Choose(tg.byOdds()) == 0 {
+		nBy = 1 + simrt.Choose(2)
+	}
+	for i := 0; i < nBy; i++ {
+		k := simrt.Choose(len(tg.bystanders))
+		mk := tg.bystanders[k]
+		simrt.Spawn("bystander:"+tg.byNames[k], func() {
+			next := mk()
+			for {
+				if _, err := next(w.Ctx); err != nil {
+					return
+				}
+			}
+		})
+	}
+	if nBy > 0 {
+		w.Probe("parked-iterator-bystanders")
 	}
 	if nPush > 0 {
 		base := next
@@ -204,6 +228,16 @@ func c07Run(w *W, tg *blkTarget, prefill int) {
 
 func (w *W) faulty() bool { return w.wl.Faulty }
 
+// byOdds: one run in n has iterator bystanders (the Deque's wait loops spin
+// when several waiters share a condition variable, see DESIGN 1.5, so they
+// are rarer there).
+func (tg *blkTarget) byOdds() int {
+	if tg.typ == "Deque" {
+		return 4
+	}
+	return 2
+}
+
 // c07Ctx gives a blocking operation its own context: cancellable, or (in the
 // deadline family) with a deadline on the fake clock.
 func c07Ctx(w *W, op *blkOp) (context.Context, context.CancelFunc) {
@@ -239,6 +273,11 @@ func queueTarget(w *W) *blkTarget {
 	tg.prodNames = []string{"BlockingAdd"}
 	tg.push = []func(v int) error{q.Add}
 	tg.pop = []func() (int, bool){q.Remove}
+	tg.bystanders = []func() func(ctx context.Context) (int, error){
+		func() func(ctx context.Context) (int, error) { return q.Producer() },
+		func() func(ctx context.Context) (int, error) { it := q.Iterator(); return it.ReadOne },
+	}
+	tg.byNames = []string{"Queue.Producer", "Queue.Iterator"}
 	return tg
 }
 
@@ -269,6 +308,11 @@ func dequeTarget(w *W) *blkTarget {
 	tg.consNames = append(tg.consNames, "DistributorNonBlocking.Receive")
 	tg.push = []func(v int) error{dq.PushFront, dq.PushBack, dq.ForcePushFront, dq.ForcePushBack, func(v int) error { return dn.Send(context.Background(), v) }}
 	tg.pop = []func() (int, bool){dq.PopFront, dq.PopBack}
+	tg.bystanders = []func() func(ctx context.Context) (int, error){
+		func() func(ctx context.Context) (int, error) { return dq.ProducerBlocking() },
+		func() func(ctx context.Context) (int, error) { return dq.ProducerReverseBlocking() },
+	}
+	tg.byNames = []string{"Deque.ProducerBlocking", "Deque.ProducerReverseBlocking"}
 	return tg
 }
 
@@ -279,6 +323,11 @@ func init() {
 	Register(&Workload{Prop: "C07", Name: "deque-deadline", Faulty: true, MaxSteps: 4000, ClockJump: 25, Run: func(w *W) {
 		c07Run(w, dequeTarget(w), simrt.Choose(3))
 	}})
+	// model-based family: the operations still blocked at quiescence are judged
+	// against the sequential model's state (exact capacity, incl. the moving
+	// soft quota), with parked iterators taking part in the wake-ups
+	Register(&Workload{Prop: "C07", Name: "queue-model", Faulty: true, MaxSteps: 8000, Run: func(w *W) { c05RunMode(w, true) }})
+	Register(&Workload{Prop: "C07", Name: "deque-model", Faulty: true, MaxSteps: 8000, Run: func(w *W) { c06RunMode(w, true) }})
 	for _, faulty := range []bool{false, true} {
 		suffix := ""
 		if faulty {
